@@ -8,4 +8,3 @@ pub mod c08;
 pub mod c15;
 pub mod c16;
 pub mod c17;
-pub mod scratch;
